@@ -167,6 +167,8 @@ def gen_attr_value(R, row, objs_so_far, lfi, hc=False):
         if any(x is None for x in eflr.flatten(nested)):
             return vals
         return nested
+    if R.random() < 0.15:
+        return tuple(vals)         # a tuple is as good as a list
     return vals
 
 
@@ -363,7 +365,7 @@ def gen_spec(R, *, n_lf=None, hc=False, small=False, kinds=None, vrl=None, rows=
                 v = gen_attr_value(R, row, objs, li, hc=hc)
                 if v is None:
                     continue
-                if kind == 'parameter' and pyname == 'values' and isinstance(v, list):
+                if kind == 'parameter' and pyname == 'values' and isinstance(v, (list, tuple)):
                     fl = eflr.flatten(v)
                     v = fl[:1] if fl else [1.5]       # without zones a parameter takes a single value
                 u = None
@@ -379,10 +381,13 @@ def gen_spec(R, *, n_lf=None, hc=False, small=False, kinds=None, vrl=None, rows=
             payload = bytes(R.randrange(256) for _ in range(min(n, 5000)))
             if R.random() < 0.3:
                 payload = ''.join(chr(R.randrange(32, 127)) for _ in range(min(n, 300)))
+            elif R.random() < 0.3:
+                payload = bytearray(payload)        # the third accepted payload type
             lf['noformat'].append((R.choice(nfs), payload))
         spec['lfs'].append(lf)
     spec['object_routes'] = R.random() < 0.25
-    data_kinds = ['inline', 'inline', 'dict'] + (['struct', 'struct', 'hdf5'] if n_lf == 1 else [])
+    # one structured array / HDF5 file may serve all frames of all logical files (each takes its own fields)
+    data_kinds = ['inline', 'inline', 'dict', 'struct', 'struct', 'hdf5']
     if fastpath:
         # the structured array IS the frame: same field names, same order, nothing else -> no-copy path of
         # NumpyDataWrapper; same-size casts on 2-D channels, scalar casts, or none
@@ -408,6 +413,9 @@ def gen_spec(R, *, n_lf=None, hc=False, small=False, kinds=None, vrl=None, rows=
                                                     spec['sul']['max_record_length'] + 10, 2**16]),
                      'from_idx': 0, 'to_idx': None, 'data_kind': R.choice(data_kinds),
                      'source_opts': {'perm_seed': R.randrange(1000), 'extra': R.choice([0, 0, 2]), 'exact': fastpath}}
+    if spec['write']['data_kind'] == 'struct' and len({o['data'].shape[0] for lf in spec['lfs'] for o in lf['objects']
+                                                         if o['kind'] == 'channel'}) > 1:
+        spec['write']['data_kind'] = 'dict'      # one structured array has one row count
     # a row window (applies to every frame of every logical file): only when no frame has an index type, whose
     # derived attributes are the business of C13
     min_rows = min(o['data'].shape[0] for lf in spec['lfs'] for o in lf['objects'] if o['kind'] == 'channel')
@@ -430,7 +438,9 @@ class Built:
 def _resolve(v, handles):
     if isinstance(v, Ref):
         return handles[v.lf][v.idx]
-    if isinstance(v, (list, tuple)):
+    if isinstance(v, tuple):
+        return tuple(_resolve(x, handles) for x in v)       # a tuple reaches the API as a tuple
+    if isinstance(v, list):
         return [_resolve(x, handles) for x in v]
     return v
 
@@ -620,7 +630,7 @@ def describe(spec):
             objs.append(e)
         d['logical_files'].append({'fh_id': lf['fh_id'], 'fh_sequence_number': lf['fh_sequence_number'],
                                    'fh_identifier': lf['fh_identifier'], 'objects': objs,
-                                   'noformat': [[i, dv(p if isinstance(p, bytes) else p)] for i, p in lf['noformat']]})
+                                   'noformat': [[i, dv(p) if not isinstance(p, bytearray) else 'bytearray:' + bytes(p)[:64].hex()] for i, p in lf['noformat']]})
     return d
 
 
